@@ -554,14 +554,19 @@ def traced(jobs, check, tag, timeout=900, chunk_limit=250000):
             else:
                 grp.append(line)
                 if line.startswith('{"e":"end"'):
-                    good.extend(grp)
+                    if len(grp) > 300000:
+                        # one render with an enormous trace (nested loops over long inputs): not validated, counted
+                        check.cov["traces_too_long_to_validate"] = check.cov.get("traces_too_long_to_validate", 0) + 1
+                    else:
+                        good.extend(grp)
                     grp = []
         with open(pp, "w") as f:
             f.writelines(good)
         if not good:
             continue
         e = {"TRACE": pp, "CHUNKS": cp}
-        r = tlc("Trace_TeraVM", "Trace_TeraVM", env=e, workers=1, dfs=True, timeout=timeout, deadlock=False,
+        # ~2500 events/s on an idle machine: allow 500 events/s before calling it a timeout
+        r = tlc("Trace_TeraVM", "Trace_TeraVM", env=e, workers=1, dfs=True, timeout=max(timeout, 120 + len(good) // 500), deadlock=False,
                 name="trace-%s-%d" % (tag, k), xmx="8g", allow_fail=True)
         check.add_tlc(r, "Trace_TeraVM:%s:%d" % (tag, k))
         ntr = sum(1 for x in good if x.startswith('{"e":"reset"'))
